@@ -116,7 +116,10 @@ class Gen:
             prec = r.choice([8, 8, 8, 8, 12, 16])
             return "c %d %d %d %d %d %s" % (prec, w, h, r.range(0, 50), self.pf(), self.buf(probe))
         if k < 7:
-            return "cy %d %d %d %s" % (w, h, r.range(0, 50), self.buf(probe))
+            # tj3CompressFromYUV8 has three planes: keep the colourspace parameter three-component and lossy
+            # (a 4-component TJPARAM_COLORSPACE / TJPARAM_LOSSLESS with YUV input over-reads the plane array on
+            # ANY instance: not a history effect, see design/C12.md "Side observations")
+            return ["set %d 0" % P_LOSSLESS, "set %d %d" % (P_CS, r.range(0, 2)), "cy %d %d %d %s" % (w, h, r.range(0, 50), self.buf(probe))]
         if k < 8:
             return "ey %d %d %d %d" % (w, h, r.range(0, 50), self.pf())
         return "lc %d %d %d %d %d %d %d" % (w, h, r.range(0, 50), self.pf(), r.range(0, 6), r.range(1, 100),
@@ -191,7 +194,8 @@ class Gen:
             choices += ["x", "x"]
         c = r.choice(choices)
         if c == "c":
-            return [self.comp_op(probe)]
+            o = self.comp_op(probe)
+            return o if isinstance(o, list) else [o]
         if c == "d":
             return self.dec_ops(probe)
         return self.xform_ops(probe)
@@ -232,7 +236,7 @@ class Gen:
                 skip = r.choice([0, 0, 1, 3, 8, 16, 17])
                 ops.append("d %s %d %d %d %d" % (j, fancy, skip, r.choice([1, 2, 7, 16, 17, 100]), r.range(0, 1)))
             # the probe: a clean stream
-            i, j = self.jref([""], [x for x in LIB if LIB[x] and LIB[x][4] == 8 and not LIB[x][3]])
+            i, j = self.jref([""], [x for x in LIB if LIB[x] and LIB[x][4] == 8 and not LIB[x][3] and x != 23])
             ops.append("d %s %d %d %d %d" % (j, r.range(0, 1), r.choice([0, 1, 3, 8, 16, 17]), r.choice([1, 2, 7, 16, 17]), r.range(0, 1)))
             return "L d ; " + " ; ".join(ops)
         ops = []
@@ -283,6 +287,14 @@ def finding_signature(hist, res):
         return "F9:stale-icc-profile:tj3TransformBufSize"
     if probe and probe[0] == "uy":
         return "F10:stale-master-lossless:tj3DecodeYUV8-after-lossless-decode"
+    if probe and probe[0] in ("t", "lt") and not crash and res.get("fresh") and res["ops"]:
+        try:
+            uo = res["ops"][-1]["S"].split()[0].split(",")[4]
+            fo = res["fresh"]["S"].split()[0].split(",")[4]
+            if uo != fo:
+                return "F11:stale-data-precision:tj3Transform-after-12bit-operation"
+        except (KeyError, IndexError):
+            pass
     if crash:
         m = re.search(r"AddressSanitizer: (\S+) \S*?([A-Za-z0-9_.-]+\.c):\d+ in (\S+)", crash)
         if m:
